@@ -119,7 +119,11 @@ pub struct Upload(pub usize);
 impl Upload {
     /// Get the upload value.
     pub fn value(&self, ctx: &Context<'_>) -> std::io::Result<UploadValue> {
-        ctx.query_env.uploads[self.0].try_clone()
+        ctx.query_env
+            .uploads
+            .get(self.0)
+            .ok_or_else(|| std::io::Error::other("upload not found"))?
+            .try_clone()
     }
 }
 
@@ -158,9 +162,10 @@ impl InputType for Upload {
         const PREFIX: &str = "#__graphql_file__:";
         let value = value.unwrap_or_default();
         if let Value::String(s) = &value
-            && let Some(filename) = s.strip_prefix(PREFIX)
+            && let Some(index) = s.strip_prefix(PREFIX)
+            && let Ok(index) = index.parse::<usize>()
         {
-            return Ok(Upload(filename.parse::<usize>().unwrap()));
+            return Ok(Upload(index));
         }
         Err(InputValueError::expected_type(value))
     }
